@@ -25,7 +25,8 @@ def mk_dataset(rng, kind=None, maxn=40):
     if rng.random() < 0.55:
         info["Y"] = {}
         if rng.random() < 0.8:
-            info["Y"]["Scale"] = float(rng.uniform(0.5, 2))
+            # "all scale settings": a sign flip (difference measurements, a file stored as -S) in one case out of eight
+            info["Y"]["Scale"] = float(rng.uniform(0.5, 2)) * (-1.0 if rng.random() < 0.125 else 1.0)
         if rng.random() < 0.8:
             info["Y"]["Offset"] = float(rng.uniform(-1, 1))
     if rng.random() < 0.5:
